@@ -4,6 +4,10 @@ import HipVerif.Model.Views
 # Lemmas for C12: laws of the views, soundness of `rowOk` / `borrowOk`
 
 All statements are for every byte string (no bounds).
+
+Second half: the transcription of std's `Path::hash` byte loop (`pathHashLoop`) equals the stream
+defined on `components` (`pathHashLoop_eq`), and `components` is canonical (trailing separator,
+interior `.`, repeated separators).
 -/
 
 namespace HipVerif.Views
@@ -291,5 +295,473 @@ theorem borrowOk_sound (env : Env) (b : BorrowRow) (hok : borrowOk env b = true)
   cases he4
   exact ⟨ve, vo, vh, tv, hg1, hg3, hg4, he1, fun x y =>
     ⟨by rw [sameCmp_eqV hs1], by rw [sameCmp_cmpV hs3], by rw [sameHash_hashStreamV hs4]⟩⟩
+
+/-! # std's `Path::hash` byte loop is a function of `components` -/
+
+/-! ## `splitSlash` -/
+
+theorem DOT_ne_SEP : DOT ≠ SEP := by decide
+
+theorem splitSlash_ne_nil : ∀ l, splitSlash l ≠ []
+  | [] => by simp [splitSlash]
+  | c :: cs => by
+    have := splitSlash_ne_nil cs
+    unfold splitSlash
+    split
+    · simp
+    · split <;> simp
+
+theorem splitSlash_cons_sep (l : List UInt8) : splitSlash (SEP :: l) = [] :: splitSlash l := by
+  simp [splitSlash]
+
+theorem splitSlash_cons_ne {c : UInt8} (h : c ≠ SEP) (l : List UInt8) :
+    ∃ p ps, splitSlash l = p :: ps ∧ splitSlash (c :: l) = (c :: p) :: ps := by
+  cases hs : splitSlash l with
+  | nil => exact absurd hs (splitSlash_ne_nil l)
+  | cons p ps => exact ⟨p, ps, rfl, by simp [splitSlash, h, hs]⟩
+
+/-- Pieces of `x ++ "/" ++ y` are the pieces of `x` followed by the pieces of `y`. -/
+theorem splitSlash_append_sep : ∀ (x y : List UInt8),
+    splitSlash (x ++ SEP :: y) = splitSlash x ++ splitSlash y
+  | [], y => by simp [splitSlash]
+  | c :: x, y => by
+    have ih := splitSlash_append_sep x y
+    by_cases h : c = SEP
+    · subst h
+      simp [splitSlash_cons_sep, ih]
+    · obtain ⟨p, ps, h1, h2⟩ := splitSlash_cons_ne h x
+      obtain ⟨p', ps', h1', h2'⟩ := splitSlash_cons_ne h (x ++ SEP :: y)
+      rw [List.cons_append, h2', h2]
+      rw [ih, h1] at h1'
+      simp only [List.cons_append, List.cons.injEq] at h1'
+      simp [← h1'.1, ← h1'.2]
+
+/-! ## The chunks `Path::hash` writes, in structural form -/
+
+/-- After a separator: is the next piece exactly `.` (`tail == [b'.']` or `[b'.', sep, ..]`)? -/
+def dotNext : List UInt8 → Bool
+  | [d] => d = DOT
+  | d :: s :: _ => d = DOT && s = SEP
+  | _ => false
+
+/-- The chunks the byte loop writes for the unread input `rest`, when `cur` is the part of the
+    current component already read (`skip`: the next byte is a `.` the loop jumps over). -/
+def scan : List UInt8 → Bool → List UInt8 → List (List UInt8)
+  | cur, _, [] => if cur = [] then [] else [cur]
+  | _, true, _ :: rest => scan [] false rest
+  | cur, false, c :: rest =>
+    if c = SEP then (if cur = [] then [] else [cur]) ++ scan [] (dotNext rest) rest
+    else scan (cur ++ [c]) false rest
+
+/-- What a piece after a separator contributes to the hash: nothing for `""` and `"."`. -/
+def pieceChunk (p : List UInt8) : Option (List UInt8) :=
+  if p = [] ∨ p = [DOT] then none else some p
+
+/-- Chunks of the input following a separator. -/
+def chunksAfterSep (l : List UInt8) : List (List UInt8) := (splitSlash l).filterMap pieceChunk
+
+/-- Chunks of the input when `cur` is the already-read start of the first piece (which is written
+    whenever it is non-empty, even when it is `.`: a leading `CurDir`). -/
+def chunksFirst (cur l : List UInt8) : List (List UInt8) :=
+  match splitSlash l with
+  | p :: tl => (if cur ++ p = [] then [] else [cur ++ p]) ++ tl.filterMap pieceChunk
+  | [] => []
+
+theorem dotNext_iff (rest : List UInt8) :
+    dotNext rest = true ↔ (splitSlash rest).head? = some [DOT] := by
+  match rest with
+  | [] => simp [dotNext, splitSlash]
+  | [d] =>
+    by_cases h : d = SEP
+    · subst h; simp [dotNext, splitSlash, Ne.symm DOT_ne_SEP]
+    · simp [dotNext, splitSlash, h]
+  | d :: s :: r =>
+    by_cases h : d = SEP
+    · subst h; simp [dotNext, splitSlash_cons_sep, Ne.symm DOT_ne_SEP]
+    · obtain ⟨p, ps, h1, h2⟩ := splitSlash_cons_ne h (s :: r)
+      rw [h2]
+      by_cases hs : s = SEP
+      · subst hs
+        rw [splitSlash_cons_sep] at h1
+        simp only [List.cons.injEq] at h1
+        simp [dotNext, ← h1.1]
+      · obtain ⟨q, qs, _, h4⟩ := splitSlash_cons_ne hs r
+        rw [h4] at h1
+        simp only [List.cons.injEq] at h1
+        simp [dotNext, ← h1.1, hs]
+
+theorem scan_skip' (cur : List UInt8) (c : UInt8) (rest : List UInt8) :
+    scan cur true (c :: rest) = scan [] false rest := by
+  rw [scan]
+
+theorem scan_eq : ∀ rest : List UInt8,
+    (∀ cur, scan cur false rest = chunksFirst cur rest) ∧
+    scan [] (dotNext rest) rest = chunksAfterSep rest
+  | [] => by simp [scan, chunksFirst, chunksAfterSep, splitSlash, pieceChunk]
+  | c :: rest => by
+    obtain ⟨ih1, ih2⟩ := scan_eq rest
+    have first : ∀ cur, scan cur false (c :: rest) = chunksFirst cur (c :: rest) := by
+      intro cur
+      by_cases h : c = SEP
+      · subst h
+        simp [scan, chunksFirst, splitSlash_cons_sep, ih2, chunksAfterSep]
+      · obtain ⟨p, ps, h1, h2⟩ := splitSlash_cons_ne h rest
+        simp [scan, h, ih1, chunksFirst, h1, h2]
+    refine ⟨first, ?_⟩
+    by_cases hd : dotNext (c :: rest) = true
+    · -- the piece is exactly "."
+      rw [hd]
+      match rest, hd, ih1 with
+      | [], hd, _ =>
+        have : c = DOT := by simpa [dotNext] using hd
+        subst this
+        simp [scan, chunksAfterSep, splitSlash, DOT_ne_SEP, pieceChunk]
+      | s :: r, hd, ih1 =>
+        have hcs : c = DOT ∧ s = SEP := by simpa [dotNext] using hd
+        obtain ⟨rfl, rfl⟩ := hcs
+        obtain ⟨p, ps, h1, h2⟩ := splitSlash_cons_ne DOT_ne_SEP (SEP :: r)
+        rw [splitSlash_cons_sep] at h1
+        simp only [List.cons.injEq] at h1
+        rw [scan_skip', ih1]
+        simp [chunksFirst, chunksAfterSep, splitSlash_cons_sep, h2, ← h1.1, ← h1.2, pieceChunk]
+    · have hd' : dotNext (c :: rest) = false := by simpa using hd
+      rw [hd', first]
+      have hne : (splitSlash (c :: rest)).head? ≠ some [DOT] := fun e => hd ((dotNext_iff _).mpr e)
+      cases hs : splitSlash (c :: rest) with
+      | nil => exact absurd hs (splitSlash_ne_nil _)
+      | cons p tl =>
+        rw [hs] at hne
+        have hp : p ≠ [DOT] := by simpa using hne
+        simp only [chunksFirst, chunksAfterSep, hs, List.nil_append, List.filterMap_cons, pieceChunk]
+        by_cases hp0 : p = []
+        · simp [hp0]
+        · simp [hp0, hp]
+
+/-! ## The loop computes `scan` -/
+
+/-- One iteration of the `for i in 0..bytes.len()` loop of `pathHashLoop`. -/
+def loopStep (bytes : List UInt8) (st : PathHashState) (i : Nat) : PathHashState :=
+  if bytes[i]?.getD 0 = SEP then
+    let st := if i > st.componentStart then
+        st.emit ((bytes.drop st.componentStart).take (i - st.componentStart)) else st
+    let cs := i + 1
+    let extra := match bytes.drop cs with
+      | [d] => if d = DOT then 1 else 0
+      | d :: s :: _ => if d = DOT ∧ s = SEP then 1 else 0
+      | _ => 0
+    { st with componentStart := cs + extra }
+  else st
+
+/-- The statements after the loop. -/
+def loopFinish (bytes : List UInt8) (st : PathHashState) : List UInt8 :=
+  let st := if st.componentStart < bytes.length then st.emit (bytes.drop st.componentStart) else st
+  st.out ++ le8 st.chunkBits
+
+theorem pathHashLoop_eq_fold (bytes : List UInt8) :
+    pathHashLoop bytes =
+      loopFinish bytes ((List.range bytes.length).foldl (loopStep bytes) ⟨0, 0, []⟩) := rfl
+
+/-- Written chunks → the stream: the chunks, then `write_usize(chunk_bits)`. -/
+def render (W : List (List UInt8)) : List UInt8 := W.flatten ++ le8 (chunkBits (W.map List.length))
+
+theorem chunkBits_append (L : List Nat) (l : Nat) :
+    chunkBits (L ++ [l]) = rotr2 ((chunkBits L + l) % 2 ^ 64) := by
+  unfold chunkBits
+  rw [List.foldl_append, List.foldl_cons, List.foldl_nil]
+
+theorem extra_eq (rest : List UInt8) :
+    (match rest with
+      | [d] => if d = DOT then 1 else 0
+      | d :: s :: _ => if d = DOT ∧ s = SEP then 1 else 0
+      | _ => 0) = if dotNext rest = true then 1 else 0 := by
+  match rest with
+  | [] => simp [dotNext]
+  | [d] => simp [dotNext]
+  | d :: s :: r => simp [dotNext]
+
+-- NB: plain `rfl` makes the kernel compare `st` with `st.emit ch` field by field (eta) and loop on
+-- `rotr2 (… % 2 ^ 64)`; unfolding first reduces the projection directly.
+theorem emit_out (st : PathHashState) (ch : List UInt8) : (st.emit ch).out = st.out ++ ch := by
+  unfold PathHashState.emit
+  rfl
+theorem emit_cs (st : PathHashState) (ch : List UInt8) :
+    (st.emit ch).componentStart = st.componentStart := by
+  unfold PathHashState.emit
+  rfl
+theorem emit_cb_raw (st : PathHashState) (ch : List UInt8) :
+    (st.emit ch).chunkBits = rotr2 ((st.chunkBits + ch.length) % 2 ^ 64) := by
+  unfold PathHashState.emit
+  rfl
+theorem emit_cb (st : PathHashState) (ch : List UInt8) (L : List Nat) (h : st.chunkBits = chunkBits L) :
+    (st.emit ch).chunkBits = chunkBits (L ++ [ch.length]) := by
+  rw [emit_cb_raw, h, chunkBits_append]
+
+theorem loopStep_other {bytes : List UInt8} {st : PathHashState} {i : Nat} {c : UInt8}
+    (hg : bytes[i]? = some c) (hc : c ≠ SEP) : loopStep bytes st i = st := by
+  simp [loopStep, hg, hc]
+
+theorem loopStep_sep_keep {bytes : List UInt8} {st : PathHashState} {i : Nat}
+    (hg : bytes[i]? = some SEP) (hn : ¬ i > st.componentStart) :
+    loopStep bytes st i =
+      { st with componentStart := i + 1 + if dotNext (bytes.drop (i + 1)) = true then 1 else 0 } := by
+  have hn' : ¬ st.componentStart < i := hn
+  simp [loopStep, hg, extra_eq, hn']
+
+theorem loopStep_sep_emit {bytes : List UInt8} {st : PathHashState} {i : Nat}
+    (hg : bytes[i]? = some SEP) (h : i > st.componentStart) :
+    loopStep bytes st i =
+      { st.emit ((bytes.drop st.componentStart).take (i - st.componentStart)) with
+        componentStart := i + 1 + if dotNext (bytes.drop (i + 1)) = true then 1 else 0 } := by
+  have h' : st.componentStart < i := h
+  simp [loopStep, hg, extra_eq, h']
+
+/-- Loop invariant: `pre` has been read, `W` written; `cur` is the started component
+    (`bytes[component_start..i]`), or (`skip`) `component_start = i + 1` and the next byte is `.`. -/
+structure LoopRel (pre rest : List UInt8) (st : PathHashState) (W : List (List UInt8))
+    (cur : List UInt8) (skip : Bool) : Prop where
+  out : st.out = W.flatten
+  cb : st.chunkBits = chunkBits (W.map List.length)
+  pos : if skip = true then st.componentStart = pre.length + 1 ∧ ∃ r, rest = DOT :: r
+        else st.componentStart + cur.length = pre.length ∧ cur = pre.drop st.componentStart
+
+theorem dotNext_cons {rest : List UInt8} (h : dotNext rest = true) : ∃ r, rest = DOT :: r := by
+  match rest, h with
+  | [d], h => exact ⟨[], by simpa [dotNext] using h⟩
+  | d :: s :: r, h =>
+    have : d = DOT ∧ s = SEP := by simpa [dotNext] using h
+    exact ⟨s :: r, by rw [this.1]⟩
+
+theorem render_snoc_eq (W : List (List UInt8)) (cur : List UInt8) (X : List (List UInt8)) :
+    render ((W ++ [cur]) ++ X) = render (W ++ ([cur] ++ X)) := by
+  rw [List.append_assoc]
+
+theorem scan_skip (cur : List UInt8) (c : UInt8) (rest : List UInt8) :
+    scan cur true (c :: rest) = scan [] false rest := by
+  rw [scan]
+
+theorem scan_sep (cur rest : List UInt8) :
+    scan cur false (SEP :: rest) =
+      (if cur = [] then [] else [cur]) ++ scan [] (dotNext rest) rest := by
+  rw [scan]; simp
+
+theorem scan_other (cur rest : List UInt8) {c : UInt8} (h : c ≠ SEP) :
+    scan cur false (c :: rest) = scan (cur ++ [c]) false rest := by
+  rw [scan]; simp [h]
+
+theorem loop_inv (bytes : List UInt8) : ∀ (rest pre : List UInt8) (st : PathHashState)
+    (W : List (List UInt8)) (cur : List UInt8) (skip : Bool),
+    bytes = pre ++ rest → LoopRel pre rest st W cur skip →
+    loopFinish bytes ((List.range' pre.length rest.length).foldl (loopStep bytes) st)
+      = render (W ++ scan cur skip rest)
+  | [], pre, st, W, cur, skip, hb, rel => by
+    simp only [List.append_nil] at hb
+    subst hb
+    simp only [List.length_nil, List.range'_zero, List.foldl_nil]
+    cases skip with
+    | true => have := rel.pos; simp at this
+    | false =>
+      have hp := rel.pos
+      simp only [Bool.false_eq_true, if_false] at hp
+      obtain ⟨hlen, hcur⟩ := hp
+      by_cases hc : cur = []
+      · have hn : ¬ st.componentStart < bytes.length := by
+          rw [hc] at hlen; simp at hlen; omega
+        unfold loopFinish
+        simp only [hn, if_false, scan, hc, if_true, List.append_nil, render, rel.out, rel.cb]
+      · have hpos : 0 < cur.length := List.length_pos_iff.mpr hc
+        have hlt : st.componentStart < bytes.length := by omega
+        unfold loopFinish
+        simp only [hlt, if_true, scan, hc, if_false, render, emit_out, ← hcur,
+          emit_cb st cur _ rel.cb, rel.out, List.flatten_append, List.map_append, List.map_cons,
+          List.map_nil, List.flatten_cons, List.flatten_nil, List.append_nil]
+  | c :: rest, pre, st, W, cur, skip, hb, rel => by
+    have hb' : bytes = (pre ++ [c]) ++ rest := by simp [hb]
+    have hget : bytes[pre.length]? = some c := by simp [hb]
+    have hlen' : (pre ++ [c]).length = pre.length + 1 := by simp
+    rw [List.length_cons, List.range'_succ, List.foldl_cons, ← hlen']
+    cases skip with
+    | true =>
+      have hp := rel.pos
+      simp only [if_true] at hp
+      obtain ⟨hcs, r, hr⟩ := hp
+      have hc : c = DOT := by simp at hr; exact hr.1
+      rw [loopStep_other hget (hc ▸ DOT_ne_SEP)]
+      have rel' : LoopRel (pre ++ [c]) rest st W [] false :=
+        ⟨rel.out, rel.cb, by simp [hcs]⟩
+      rw [loop_inv bytes rest (pre ++ [c]) st W [] false hb' rel', scan_skip]
+    | false =>
+      have hp := rel.pos
+      simp only [Bool.false_eq_true, if_false] at hp
+      obtain ⟨hlen, hcur⟩ := hp
+      have hle : st.componentStart ≤ pre.length := by omega
+      by_cases hc : c = SEP
+      · -- a separator
+        subst hc
+        have hdrop : bytes.drop (pre.length + 1) = rest := by
+          rw [hb', ← hlen']; simp
+        have htake : (bytes.drop st.componentStart).take (pre.length - st.componentStart) = cur := by
+          rw [hb, List.drop_append_of_le_length hle, ← hcur]
+          have : pre.length - st.componentStart = cur.length := by omega
+          rw [this]; simp
+        have hgt : pre.length > st.componentStart ↔ cur ≠ [] := by
+          rw [← List.length_pos_iff]; omega
+        have hpos : ∀ (s : PathHashState),
+            s.componentStart = pre.length + 1 + (if dotNext rest = true then 1 else 0) →
+            (if dotNext rest = true then s.componentStart = (pre ++ [SEP]).length + 1 ∧ ∃ r, rest = DOT :: r
+              else s.componentStart + ([] : List UInt8).length = (pre ++ [SEP]).length ∧
+                ([] : List UInt8) = (pre ++ [SEP]).drop s.componentStart) := by
+          intro s hs
+          by_cases hd : dotNext rest = true
+          · rw [if_pos hd] at hs ⊢
+            exact ⟨by rw [hs, hlen'], dotNext_cons hd⟩
+          · rw [if_neg hd] at hs ⊢
+            refine ⟨by rw [hs, hlen']; simp, ?_⟩
+            rw [hs, ← hlen']; simp
+        rw [scan_sep]
+        by_cases hcur0 : cur = []
+        · have hngt : ¬ pre.length > st.componentStart := fun h => (hgt.mp h) hcur0
+          have hstep := loopStep_sep_keep (st := st) hget hngt
+          rw [hdrop] at hstep
+          have rel' : LoopRel (pre ++ [SEP]) rest (loopStep bytes st pre.length) W [] (dotNext rest) := by
+            refine ⟨?_, ?_, ?_⟩
+            · rw [hstep]; exact rel.out
+            · rw [hstep]; exact rel.cb
+            · exact hpos _ (by rw [hstep])
+          rw [loop_inv bytes rest (pre ++ [SEP]) _ W [] (dotNext rest) hb' rel']
+          simp [hcur0]
+        · have hgt' : pre.length > st.componentStart := hgt.mpr hcur0
+          have hstep := loopStep_sep_emit (st := st) hget hgt'
+          rw [hdrop, htake] at hstep
+          have rel' : LoopRel (pre ++ [SEP]) rest (loopStep bytes st pre.length) (W ++ [cur]) []
+              (dotNext rest) := by
+            refine ⟨?_, ?_, ?_⟩
+            · rw [hstep]
+              show (st.emit cur).out = _
+              rw [emit_out, rel.out]; simp
+            · rw [hstep]
+              show (st.emit cur).chunkBits = _
+              rw [emit_cb st cur _ rel.cb]; simp
+            · exact hpos _ (by rw [hstep])
+          rw [loop_inv bytes rest (pre ++ [SEP]) _ (W ++ [cur]) [] (dotNext rest) hb' rel']
+          simp [hcur0]
+      · -- an ordinary byte
+        rw [loopStep_other hget hc]
+        have rel' : LoopRel (pre ++ [c]) rest st W (cur ++ [c]) false := by
+          refine ⟨rel.out, rel.cb, ?_⟩
+          simp only [Bool.false_eq_true, if_false]
+          refine ⟨by simp; omega, ?_⟩
+          rw [List.drop_append_of_le_length hle, ← hcur]
+        rw [loop_inv bytes rest (pre ++ [c]) st W (cur ++ [c]) false hb' rel', scan_other _ _ hc]
+
+/-- The byte loop writes exactly the chunks `scan` describes. -/
+theorem pathHashLoop_eq_scan (bytes : List UInt8) :
+    pathHashLoop bytes = render (scan [] false bytes) := by
+  rw [pathHashLoop_eq_fold, List.range_eq_range']
+  have := loop_inv bytes bytes [] ⟨0, 0, []⟩ [] [] false rfl
+    ⟨rfl, rfl, by simp⟩
+  simpa using this
+
+/-! ## `components` describes the same chunks -/
+
+theorem pieceComp_bind_hashBytes (p : List UInt8) :
+    (pieceComp p).bind Comp.hashBytes = pieceChunk p := by
+  unfold pieceComp pieceChunk
+  by_cases h0 : p = []
+  · simp [h0]
+  · by_cases h1 : p = [DOT]
+    · simp [h1]
+    · by_cases h2 : p = [DOT, DOT]
+      · simp [h2, Comp.hashBytes]
+      · simp [h0, h1, h2, Comp.hashBytes]
+
+theorem pieceChunk_nil : pieceChunk [] = none := by simp [pieceChunk]
+theorem pieceChunk_dot : pieceChunk [DOT] = none := by simp [pieceChunk]
+theorem pieceChunk_other {p : List UInt8} (h0 : p ≠ []) (h1 : p ≠ [DOT]) : pieceChunk p = some p := by
+  simp [pieceChunk, h0, h1]
+
+theorem components_chunks (bytes : List UInt8) :
+    (components bytes).filterMap Comp.hashBytes = chunksFirst [] bytes := by
+  unfold components chunksFirst
+  simp only [List.filterMap_append, List.filterMap_filterMap, pieceComp_bind_hashBytes]
+  have hfun : (fun x => pieceChunk x) = pieceChunk := rfl
+  cases hs : splitSlash bytes with
+  | nil => exact absurd hs (splitSlash_ne_nil _)
+  | cons p tl =>
+    simp only [List.head?_cons, List.nil_append, List.filterMap_cons]
+    by_cases hroot : bytes.head? = some SEP
+    · -- rooted: the first piece is empty
+      have hp : p = [] := by
+        match bytes, hroot, hs with
+        | c :: r, hroot, hs =>
+          have : c = SEP := by simpa using hroot
+          subst this
+          rw [splitSlash_cons_sep] at hs
+          simp only [List.cons.injEq] at hs
+          exact hs.1.symm
+      simp [hroot, hp, Comp.hashBytes, pieceChunk_nil]
+    · by_cases hp : p = [DOT]
+      · simp [hroot, hp, Comp.hashBytes, pieceChunk_dot]
+      · by_cases hp0 : p = []
+        · simp [hroot, hp0, pieceChunk_nil]
+        · simp [hroot, hp, hp0, pieceChunk_other hp0 hp]
+
+/-- **std's `Path::hash` byte loop is a function of `components`**: the transcription of the loop
+    feeds the hasher exactly the stream the path view is defined by, for every byte string. -/
+theorem pathHashLoop_eq (bytes : List UInt8) : pathHashLoop bytes = hashStreamV .path bytes := by
+  rw [pathHashLoop_eq_scan, (scan_eq bytes).1 [], ← components_chunks]
+  rfl
+
+/-! ## `components` is canonical -/
+
+theorem head?_splitSlash_append (x : List UInt8) (ys : List (List UInt8)) :
+    (splitSlash x ++ ys).head? = (splitSlash x).head? := by
+  cases hs : splitSlash x with
+  | nil => exact absurd hs (splitSlash_ne_nil x)
+  | cons p ps => simp
+
+theorem head?_append_sep (x y : List UInt8) (z : List UInt8) :
+    (x ++ SEP :: y).head? = (x ++ SEP :: z).head? := by
+  cases x <;> simp
+
+/-- What follows a separator only matters through the components it yields. -/
+theorem components_congr_after_sep (x y1 y2 : List UInt8)
+    (h : (splitSlash y1).filterMap pieceComp = (splitSlash y2).filterMap pieceComp) :
+    components (x ++ SEP :: y1) = components (x ++ SEP :: y2) := by
+  unfold components
+  simp only [splitSlash_append_sep, head?_splitSlash_append, List.filterMap_append, h,
+    head?_append_sep x y1 y2]
+
+/-- A repeated separator is ignored: `x//y` and `x/y` have the same components. -/
+theorem components_repeated_sep' (x y : List UInt8) :
+    components (x ++ SEP :: SEP :: y) = components (x ++ SEP :: y) :=
+  components_congr_after_sep x (SEP :: y) y (by simp [splitSlash_cons_sep, pieceComp])
+
+/-- An interior `.` is ignored: `x/./y` and `x/y` have the same components. -/
+theorem components_interior_dot' (x y : List UInt8) :
+    components (x ++ SEP :: DOT :: SEP :: y) = components (x ++ SEP :: y) := by
+  refine components_congr_after_sep x (DOT :: SEP :: y) y ?_
+  have := splitSlash_append_sep [DOT] y
+  simp only [List.cons_append, List.nil_append] at this
+  rw [this]
+  simp [splitSlash, DOT_ne_SEP, pieceComp]
+
+/-- A trailing separator is ignored (for a non-empty path; `""` has no components, `"/"` has `RootDir`). -/
+theorem components_trailing_sep' (x : List UInt8) (hx : x ≠ []) :
+    components (x ++ [SEP]) = components x := by
+  unfold components
+  have hh : (x ++ [SEP]).head? = x.head? := by cases x <;> simp_all
+  have hs : splitSlash (x ++ [SEP]) = splitSlash x ++ [[]] := by
+    have := splitSlash_append_sep x []
+    simpa [splitSlash] using this
+  simp only [hh, hs, head?_splitSlash_append, List.filterMap_append]
+  simp [pieceComp]
+
+/-- A trailing `/.` is ignored (for a non-empty path). -/
+theorem components_trailing_dot' (x : List UInt8) (hx : x ≠ []) :
+    components (x ++ [SEP, DOT]) = components x := by
+  have h1 : components (x ++ SEP :: [DOT]) = components (x ++ SEP :: []) :=
+    components_congr_after_sep x [DOT] [] (by simp [splitSlash, DOT_ne_SEP, pieceComp])
+  rw [h1]
+  exact components_trailing_sep' x hx
 
 end HipVerif.Views
